@@ -421,6 +421,8 @@ int __parsec_schedule_flush_private( parsec_execution_stream_t* es )
     parsec_task_t* task = es->next_task;
     if( NULL != task ) {
         es->next_task = NULL;
+        /* the retained task was chopped off its ring without resetting its links */
+        PARSEC_LIST_ITEM_SINGLETON(task);
         return __parsec_schedule(es, task, 0);
     }
     return PARSEC_SUCCESS;
